@@ -8,3 +8,4 @@ pub mod escape;
 pub mod locks;
 pub mod units;
 pub mod arith;
+pub mod prefix;
